@@ -45,6 +45,8 @@ func pkgSum(c *rt.Ctx, xs ...int) int {
 	return n
 }
 
+func pkgCount(c *rt.Ctx, xs ...any) int { c.X(908, len(xs)); return len(xs) }
+
 func pkgSub(c *rt.Ctx, a, b int) int { c.X(907, a*100+b); return a - b }
 
 func ident[T any](x T) T { return x }
@@ -55,6 +57,14 @@ type adder struct {
 }
 
 func (o *adder) add(a int) int { o.c.X(903, o.k); return a + o.k }
+
+type meter struct {
+	c *rt.Ctx
+	n int
+}
+
+func (m meter) read(a int) int { m.c.X(909, m.n); return a + m.n }
+func (m *meter) tick()         { m.n++ }
 
 func mkAdd(c *rt.Ctx, k int) func(int) int {
 	c.X(904, k)
@@ -74,6 +84,8 @@ var etaCallees = []etaCallee{
 	{name: "nilvar", prelude: "var f func(int) int", call: "f", mutate: "f = func(a int) int { c.X(2, a); return a + 2 }", sig: "(a int) int", args: "a", invoke: "10"},
 	{name: "methodval", prelude: "o := &adder{c, 1}", call: "o.add", mutate: "o = &adder{c, 100}", sig: "(a int) int", args: "a", invoke: "10"},
 	{name: "methodfield", prelude: "o := &adder{c, 1}", call: "o.add", mutate: "o.k = 100", sig: "(a int) int", args: "a", invoke: "10"},
+	{name: "valuemethod-fieldwrite", prelude: "m := meter{c, 1}", call: "m.read", mutate: "m.n = 100", sig: "(a int) int", args: "a", invoke: "10"},
+	{name: "valuemethod-ptrcall", prelude: "m := meter{c, 1}", call: "m.read", mutate: "m.tick()", sig: "(a int) int", args: "a", invoke: "10"},
 	{name: "fieldfunc", prelude: "s := struct{ f func(int) int }{func(a int) int { c.X(1, a); return a + 1 }}", call: "s.f", mutate: "s.f = func(a int) int { c.X(2, a); return a + 2 }", sig: "(a int) int", args: "a", invoke: "10"},
 	{name: "callresult", call: "mkAdd(c, 5)", sig: "(a int) int", args: "a", invoke: "10"},
 	{name: "builtin", call: "len", sig: "(s []int) int", args: "s", invoke: "[]int{1, 2}"},
@@ -81,6 +93,7 @@ var etaCallees = []etaCallee{
 	{name: "generic-inst", call: "ident[int]", sig: "(a int) int", args: "a", invoke: "10"},
 	{name: "generic-infer", call: "ident", sig: "(a int) int", args: "a", invoke: "10"},
 	{name: "variadic-spread", call: "pkgSum", sig: "(c *rt.Ctx, xs ...int) int", args: "c, xs...", invoke: "c, 1, 2"},
+	{name: "variadic-collapse", call: "pkgCount", sig: "(c *rt.Ctx, xs ...any) int", args: "c, xs", invoke: "c, 1, 2, 3"},
 	{name: "variadic-forward", call: "pkgSum", sig: "(c *rt.Ctx, xs []int) int", args: "c, xs...", invoke: "c, []int{1, 2}"},
 	{name: "variadic-forward-any", prelude: "var keep any", call: "pkgSum", sig: "(c *rt.Ctx, xs []int) int", args: "c, xs...", invoke: "c, []int{1, 2}", mutate: "keep = h\n\tif _, ok := keep.(func(*rt.Ctx, []int) int); !ok { c.E(77) }"},
 	{name: "widening", prelude: "f := func(a int) int { c.X(1, a); return a + 1 }", call: "f", sig: "(a int) any", args: "a", invoke: "10"},
@@ -287,14 +300,14 @@ func etaFamily(tier string) *FamilySpec {
 
 func init() {
 	OptFamilies = func(tier string) []*FamilySpec {
-		return []*FamilySpec{etaFamily(tier), importFamily(tier), bystanderFamily(tier), bystander2Family(tier)}
+		return []*FamilySpec{etaFamily(tier), importFamily(tier), bystanderFamily(tier), bystander2Family(tier), bystander3Family(tier)}
 	}
 }
 
 // C13 — code that is not a generator is behaviourally unchanged.
 func C13(tier string) *core.Report {
 	r := core.NewReport("C13", tier)
-	fams := []*FamilySpec{etaFamily(tier), bystanderFamily(tier), bystander2Family(tier), importFamily(tier)}
+	fams := []*FamilySpec{etaFamily(tier), bystanderFamily(tier), bystander2Family(tier), bystander3Family(tier), importFamily(tier)}
 	for _, fr := range runFamilies(r, fams, tier) {
 		for _, f := range fr.Divergences("lockstep", "panic", "lockstep-under-panic", "fatal", "nondet", "nondet-ref") {
 			r.Fail(f)
@@ -303,6 +316,9 @@ func C13(tier string) *core.Report {
 			r.Fail(f)
 		}
 		for _, f := range fr.BlankImportsDropped() {
+			r.Fail(f)
+		}
+		for _, f := range fr.DirectivesDropped() {
 			r.Fail(f)
 		}
 	}
